@@ -435,27 +435,27 @@ Proof.
 Qed.
 
 (* ------------------------------------------------------------------ batch close *)
-Lemma close_batch_live s orc a ids order :
+Lemma close_batch_core s orc a order :
   Inv s -> find_auction s (a_id a) = Some a -> a_status a = Started -> a_type a = Batch ->
-  find (fun x => N.eqb (fst x) (a_id a)) orc = Some (a_id a, ids) ->
-  valid_order (bids_of s (a_id a)) ids = Some order ->
-  no_veto s H_BeforeAllocated = true ->
-  exists s', close_batch s orc a = Ok s' /\ escrow_inv s' /\ remaining_inv s'.
+  valid_order (bids_of s (a_id a)) (oracle_ids orc (a_id a)) = Some order ->
+  exists mi, calc_batch a (bids_of s (a_id a)) order (allowed_of s (a_id a)) = Some mi /\
+    (decision s a mi = true \/ no_veto s H_BeforeAllocated = true ->
+     exists s', close_batch s orc a = Ok s' /\ escrow_inv s' /\ remaining_inv s').
 Proof.
-  intros I Fa Hst Hty Horc HV Hnv.
+  intros I Fa Hst Hty HV'.
+  set (ids := oracle_ids orc (a_id a)) in *. pose proof HV' as HV.
   pose proof (Inv_book_wf s (a_id a) I) as BW.
   pose proof (InvStaticBase_find_wf s a I Fa) as AW.
   pose proof (Inv_denoms_wf s a I Fa Hty) as DW.
   assert (Hsup : 0 <= a_sell_amt a) by (pose proof (awf_amt _ AW); lia).
   destruct (MatchBatch.calc_batch_spec a (bids_of s (a_id a)) ids order (allowed_of s (a_id a)) BW HV Hsup) as (mi & HC & _).
-  assert (HV' : valid_order (bids_of s (a_id a)) (oracle_ids orc (a_id a)) = Some order).
-  { unfold oracle_ids. rewrite Horc. exact HV. }
+  exists mi. split; [exact HC|]. intros Hor.
   rewrite (close_batch_unfold s orc a order mi HV' HC).
   destruct (flags_escrow s (a_id a) (mi_matched mi) (inv_escrow _ I) (inv_remaining _ I)) as [EF RF].
   set (sf := set_flags s (a_id a) (mi_matched mi)) in *.
   assert (Hndf : NoDup (map a_id (st_auctions sf))) by apply (ids_seq_ids_ok s (inv_ids _ I)).
   assert (Faf : find_auction sf (a_id a) = Some a) by exact Fa.
-  destruct (decision s a mi).
+  destruct (decision s a mi) eqn:Dec.
   - (* another round *)
     eexists. split; [reflexivity|].
     apply (put_auction_escrow sf a (extended s a mi) EF RF Hndf Faf); try reflexivity.
@@ -465,6 +465,7 @@ Proof.
     + cbn. rewrite Hst. discriminate.
     + rewrite Hst. discriminate.
   - (* settlement *)
+    assert (Hnv : no_veto s H_BeforeAllocated = true) by (destruct Hor as [Hor|Hor]; [discriminate Hor|exact Hor]).
     rewrite settle_batch_gen.
     destruct (MatchConseq.batch_alloc_bounds a _ ids order _ mi BW HV Hsup HC) as (Ha1 & _ & Ha3 & Ha4).
     destruct (MatchConseq.batch_refund_facts a _ ids order _ mi BW HV Hsup DW HC) as (Hr1 & _).
